@@ -5,7 +5,7 @@ cd "$(dirname "$0")"
 export CARGO_NET_OFFLINE=true
 (cd mirfacts && cargo +nightly build --release --offline)
 if [ -d tmpl ]; then
-  cp /repo/Cargo.lock tmpl/Cargo.lock 2>/dev/null || true
+  [ -f tmpl/Cargo.lock ] || cp /repo/Cargo.lock tmpl/Cargo.lock
   (cd tmpl && cargo build --release --offline)
 fi
 echo setup ok
